@@ -32,8 +32,8 @@ MODELS_USED = ["symnp.clip (ITE)", "EXP uninterpreted + axioms"]
 ASSUMPTIONS = ["floats modelled as reals; witnesses replayed in float64",
                "pydantic-core validation/serialisation and CPython json float repr are outside the solver's reach: they are exercised concretely at each path witness only",
                "hourly family: one hand-written stored document per variant (scaling method, solar, route), concrete; fitting an hourly model does not run in the pinned environment",
-               "CalTRACK-hourly family: outside the claim (statsmodels/patsy object graphs)"]
-EXPECTED_REGIMES = ["T below T_min", "T above T_max", "api round trip ran", "hourly model with two time-series features (solar)"]
+               "CalTRACK-hourly family: the stored three_month_weighted model shipped with the repository tests (tests/legacy_hourly.json), concrete; no fit (15 minutes here)"]
+EXPECTED_REGIMES = ["T below T_min", "T above T_max", "api round trip ran", "hourly model with two time-series features (solar)", "CalTRACK hourly model with usage (uncertainty computed)"]
 
 IDS = {
     "hdd_tidd_cdd_smooth": ["hdd_bp", "hdd_beta", "hdd_k", "cdd_bp", "cdd_beta", "cdd_k", "intercept"],
@@ -60,7 +60,7 @@ def cases(tier, seed):
     out = []
     for s in SHAPES:
         out += [f"{s}/closed", f"{s}/roundtrip", f"{s}/segindep"]
-    out += ["hourly/stored"]
+    out += ["hourly/stored", "caltrack/stored"]
     return out
 
 
@@ -296,10 +296,74 @@ def run_hourly(case):
     case.sample(dict(family="hourly", variants=len(paths)))
 
 
+# ---------------------------------------------------------------- CalTRACK-hourly family (stored document, concrete)
+
+def caltrack_roundtrip(span, usage, route, tz):
+    """the stored CalTRACK hourly model: the in-memory object a fit leaves behind (month keys are ints), its stored form,
+    the model loaded from it, that model's stored form and the model loaded from that: same document, same predictions
+    (incl. the per-month uncertainty), for every reporting span / usage variant"""
+    import logging
+    logging.disable(logging.CRITICAL)
+    from . import caltrackref as CT
+    pr = []
+    m0 = CT.model(int_keys=True)
+    data = CT.reporting(span, usage, tz)
+    p0 = m0.predict(data)
+    try:
+        if route == "json":
+            t1 = m0.to_json(); m1 = CT.HourlyModel.from_json(t1); t2 = m1.to_json(); m2 = CT.HourlyModel.from_json(t2)
+            d1, d2 = json.loads(t1), json.loads(t2)
+        else:
+            d1 = json.loads(json.dumps(m0.to_dict())); m1 = CT.HourlyModel.from_dict(json.loads(json.dumps(m0.to_dict())))
+            d2 = json.loads(json.dumps(m1.to_dict())); m2 = CT.HourlyModel.from_dict(json.loads(json.dumps(m1.to_dict())))
+    except Exception as ex:
+        return [f"a stored CalTRACK hourly model cannot be loaded and written again ({route}): {type(ex).__name__}: {str(ex)[:140]}"]
+    if d1 != d2:
+        pr.append(f"re-serialised document differs in {[k for k in d1 if d1[k] != d2.get(k)][:4]}")
+    for who, m in (("loaded model", m1), ("model loaded from the re-serialised document", m2)):
+        q = m.predict(CT.reporting(span, usage, tz))
+        for col in ("predicted", "predicted_uncertainty"):
+            if list(q.index) != list(p0.index) or not CT.same(p0[col], q[col]):
+                a, b = p0[col].to_numpy(dtype=float), q[col].to_numpy(dtype=float)
+                pr.append(f"{who}: {col} differs from the original object's ({int(np.isfinite(a).sum())} vs {int(np.isfinite(b).sum())} finite values, means {np.nanmean(a) if np.isfinite(a).any() else None} vs {np.nanmean(b) if np.isfinite(b).any() else None})")
+    return pr
+
+
+def replay_caltrack(inp):
+    pr = caltrack_roundtrip(inp["span"], inp["usage"], inp["route"], inp["tz"])
+    return bool(pr), "; ".join(pr[:3])
+
+
+REPLAY["caltrack"] = replay_caltrack
+
+
+def run_caltrack(case):
+    from . import dailyframe as F
+    from . import caltrackref as CT
+    case.inputs = []
+
+    def run():
+        cfg = dict(span=F.choose("span", list(CT.SPANS)), usage=F.choose("usage", ["present", "absent", "partly-missing"]), route=F.choose("route", ["json", "dict"]),
+                   tz=F.choose("tz", ["UTC", "US/Pacific"]))
+        return cfg, caltrack_roundtrip(**cfg)
+
+    paths = case.explore(run)
+    for p in paths:
+        if p.outcome != "ret":
+            case.rep["harness_errors"].append(f"CalTRACK round trip raised {p.value!r}")
+            continue
+        cfg, pr = p.value
+        case.prove(p, not pr, "CalTRACK hourly model: stored document and predictions (incl. uncertainty) survive store -> load -> store -> load", replay=("caltrack", (lambda c: lambda mdl: dict(c))(cfg)))
+        case.regime("CalTRACK hourly model with usage (uncertainty computed)", cfg["usage"] == "present")
+    case.sample(dict(family="CalTRACK hourly (tests/legacy_hourly.json, three_month_weighted)", variants=len(paths)))
+
+
 def run_case(case: Case, name: str):
     shape, mode = name.split("/")
     if shape == "hourly":
         return run_hourly(case)
+    if shape == "caltrack":
+        return run_caltrack(case)
     if mode == "closed":
         return run_closed(case, shape)
     if mode == "roundtrip":
